@@ -326,6 +326,7 @@ def run(tier, seed, out, drv, facts):
     recursion_limit_sweep(out)
     after_failed_hooked_import(out)
     base_class_transparency_case(out)
+    decoration_inside_context(out)
     annotation_reuse_cases(out)
     pickling_cases(out)
     # --- random histories of public-API operations, then probes
@@ -580,6 +581,51 @@ def base_class_transparency_case(out):
                       {"base_class_transparency": True})
 
 
+_DECO_COUNTER = [0]
+
+
+def decoration_inside_context(out):
+    """DECORATING a function is not a check: done inside a live context block / a running decorated call (a nested `def`,
+    what the import hook produces for every nested definition), with typeguard or beartype (which probes each new hint once
+    when it decorates), for annotations never seen before — the context's bindings are what they were, and a structure
+    name the decorated function merely MENTIONS is still free for its first real use"""
+    import beartype
+    import typeguard
+
+    for ck, tc in (("typeguard", typeguard.typechecked), ("beartype", beartype.beartype)):
+        for where in ("block", "call"):
+            _DECO_COUNTER[0] += 1
+            name = f"X{_DECO_COUNTER[0]}q"
+            res = {}
+
+            def body():
+                isinstance(Duck((3,), "float32"), Float[Duck, "a"])
+                res["before"] = impl.canon_bindings(impl.bindings())
+
+                @jaxtyped(typechecker=tc)
+                def helper(x: PyTree[complex, name], y: Float[Duck, "a zz"]) -> PyTree[int, name + " " + name]:
+                    return x
+
+                res["after"] = impl.canon_bindings(impl.bindings())
+                res["first_use"] = impl.check_once((1, 2), PyTree[int, name])
+                res["then"] = [impl.check_once((3, 4), PyTree[int, name]), impl.check_once((1, 2, 3), PyTree[int, name])]
+
+            try:
+                if where == "block":
+                    with jaxtyped("context"):
+                        body()
+                else:
+                    jaxtyped(typechecker=None)(body)()
+            finally:
+                impl_prog.residual_state(reset=True)
+            out.case(("decoration-inside-context", ck, where), True, sample={"checker": ck, "where": where, **{k: str(v) for k, v in res.items()}})
+            if res.get("before") != res.get("after") or res.get("first_use") != "T" or res.get("then") != ["T", "F"]:
+                out.violation(f"decoration-inside-context:{ck}", f"decorating a (never called) function with {ck} inside a live {where}: bindings {res.get('before')} -> {res.get('after')}; "
+                              f"the first real use of the structure name it mentions gives {res.get('first_use')} (T), then an equal / another structure {res.get('then')} (T, F)",
+                              {"decoration_inside_context": [ck, where]})
+                return
+
+
 def annotation_reuse_cases(out):
     """one annotation OBJECT checked again in another context: the verdict depends on that context's bindings and on the
     current call's arguments, never on what the object answered earlier for the same shape"""
@@ -707,6 +753,9 @@ def other_thread_cases(out):
 
 
 def replay(rep, out, drv, facts):
+    if "decoration_inside_context" in rep:
+        decoration_inside_context(out)
+        return
     if "base_class_transparency" in rep:
         base_class_transparency_case(out)
         return
